@@ -57,11 +57,21 @@ def scribble(body, be):
         pass                                         # read-only buffers cannot be scribbled on, and then they cannot leak either
 
 
-def read_body(raw_hex, be, route):
+def read_body(raw_hex, be, route, window=None):
     from pose_format import Pose
     from pose_format.pose_header import PoseHeaderCache
     PoseHeaderCache.clear_cache()
     raw = bytes.fromhex(raw_hex)
+    if route == "read_window":                        # a windowed read from a stream, straight into the body class
+        import io
+        kw = {"start_frame": window[0], "end_frame": window[1]}
+        if be == "numpy":
+            return Pose.read(io.BytesIO(raw), **kw).body
+        if be == "torch":
+            from pose_format.torch.pose_body import TorchPoseBody
+            return Pose.read(io.BytesIO(raw), TorchPoseBody, **kw).body
+        from pose_format.tensorflow.pose_body import TensorflowPoseBody
+        return Pose.read(io.BytesIO(raw), TensorflowPoseBody, **kw).body
     if route == "read":
         if be == "numpy":
             return Pose.read(raw).body
@@ -76,7 +86,7 @@ def read_body(raw_hex, be, route):
 
 def run_case(case, be):
     try:
-        body = read_body(case["hex"], be, case["route"])
+        body = read_body(case["hex"], be, case["route"], case.get("window"))
     except Exception as e:
         return [{"error": type(e).__name__ + ": " + str(e)[:120]}]
     out = [view_of(body, be)]
